@@ -538,6 +538,86 @@ def rpc_back_facts():
     return fields
 
 
+HISTORY_KEYS = {"inp": True, "env": False, "out": True, "vol": True}   # key -> holds paths
+
+
+def amend_history_facts():
+    """Step-side state that remembers paths across API calls: `_AMEND_HISTORY` (api.py).  Every statement that
+    reads it (`X.difference_update(_AMEND_HISTORY[k])`: X is compared with the history) or writes it
+    (`_AMEND_HISTORY[k].update(X)`) is listed with the FRAME of X, found from the assignment that defines X in the
+    same function: `{translate(v) for v in ...}` -> FTranslated (root-relative), `{subs_env(v) for v in ...}` /
+    `coerce_paths(...)` -> FRaw (relative to the step's working directory), the env key -> FNotPath.  The frames are
+    GENERATED; a comparison of raw paths with a history of translated ones is translated (not rejected) and
+    C20_amend_history_frames / C20_amend_drops_only_same_file stop holding.  Fail closed: `_AMEND_HISTORY` used in
+    another function than `amend`, in another statement shape, with a non-literal key, X not a local set built by
+    one of the recognised comprehensions; another module-level mutable collection whose name contains HISTORY."""
+    arel = f"{CORE}/api.py"
+    tree = parse_module(arel)
+    fns = list(functions_with_parents(tree))
+    # module-level definition
+    defs = [n for n in tree.body if isinstance(n, ast.Assign) and any(
+        isinstance(t, ast.Name) and "HISTORY" in t.id.upper() for t in n.targets)]
+    if len(defs) != 1 or ast.unparse(defs[0].targets[0]) != "_AMEND_HISTORY":
+        raise TranslatorError(f"{arel}: module-level history collections changed: {[ast.unparse(d.targets[0]) for d in defs]}")
+    d = defs[0].value
+    if not (isinstance(d, ast.Dict) and sorted(ast.literal_eval(k) for k in d.keys) == sorted(HISTORY_KEYS)
+            and all(ast.unparse(v) == "set()" for v in d.values)):
+        raise TranslatorError(f"{arel}: _AMEND_HISTORY is no longer a dict of empty sets with keys {sorted(HISTORY_KEYS)}")
+    parents = {}
+    for node in ast.walk(tree):
+        for ch in ast.iter_child_nodes(node):
+            parents[id(ch)] = node
+    uses = []
+    for node in ast.walk(tree):
+        if not (isinstance(node, ast.Name) and node.id == "_AMEND_HISTORY") or parents.get(id(node)) is defs[0]:
+            continue
+        owner = [q for q, f2 in fns if any(n2 is node for n2 in ast.walk(f2))]
+        owner = max(owner, key=len) if owner else "module"
+        if owner != "amend":
+            raise TranslatorError(f"{arel}:{node.lineno}: _AMEND_HISTORY is used in {owner}")
+        sub = parents.get(id(node))
+        if not (isinstance(sub, ast.Subscript) and isinstance(sub.slice, ast.Constant) and sub.slice.value in HISTORY_KEYS):
+            raise TranslatorError(f"{arel}:{node.lineno}: _AMEND_HISTORY is not indexed by a literal key")
+        key = sub.slice.value
+        up = parents.get(id(sub))
+        stmt = None
+        op = var = None
+        if isinstance(up, ast.Call) and up.args and up.args[0] is sub and isinstance(up.func, ast.Attribute) \
+                and up.func.attr == "difference_update" and isinstance(up.func.value, ast.Name) and len(up.args) == 1:
+            op, var, stmt = "HRead", up.func.value.id, parents.get(id(up))
+        elif isinstance(up, ast.Attribute) and up.attr == "update" and isinstance(parents.get(id(up)), ast.Call):
+            call = parents[id(up)]
+            if len(call.args) == 1 and isinstance(call.args[0], ast.Name) and not call.keywords:
+                op, var, stmt = "HWrite", call.args[0].id, parents.get(id(call))
+        if op is None or not isinstance(stmt, ast.Expr):
+            raise TranslatorError(f"{arel}:{node.lineno}: unrecognised use of _AMEND_HISTORY[{key!r}]: "
+                                  f"{ast.unparse(parents.get(id(up), up))[:80]}")
+        fn = dict(fns)[owner]
+        if not HISTORY_KEYS[key]:
+            frame = "FNotPath"
+        else:
+            assigns = [st for st in ast.walk(fn) if isinstance(st, ast.Assign) and len(st.targets) == 1
+                       and isinstance(st.targets[0], ast.Name) and st.targets[0].id == var and st.lineno < node.lineno]
+            if not assigns:
+                raise TranslatorError(f"{arel}:{node.lineno}: {var} has no assignment before it meets the history")
+            src = ast.unparse(max(assigns, key=lambda st: st.lineno).value)
+            if re.fullmatch(r"\{translate\((\w+)\) for \1 in \w+\}", src):
+                frame = "FTranslated"
+            elif re.fullmatch(r"\{subs_env\((\w+)\) for \1 in \w+\}", src) or re.fullmatch(r"coerce_paths\(\w+\)", src):
+                frame = "FRaw"
+            else:
+                raise TranslatorError(f"{arel}:{node.lineno}: frame of {var} not recognised: {var} = {src[:70]}")
+        uses.append((f"api.py:amend:{key}:{var}:{op}", key, op, frame, node.lineno))
+    if sum(1 for u in uses if u[2] == "HWrite") != len(HISTORY_KEYS) or not any(u[2] == "HRead" for u in uses):
+        raise TranslatorError(f"{arel}: expected one write per key and at least one read of _AMEND_HISTORY: {uses}")
+    # the amend_step RPC sends the translated sets
+    fn = dict(fns)["amend"]
+    rpc = [n for n in ast.walk(fn) if isinstance(n, ast.Call) and ast.unparse(n.func) == "get_rpc_client().call.amend_step"]
+    if len(rpc) != 1 or [ast.unparse(a) for a in rpc[0].args] != ["job_i", "tr_inp_paths", "sorted(env_deps)", "tr_out_paths", "tr_vol_paths"]:
+        raise TranslatorError(f"{arel}: amend_step RPC arguments changed")
+    return [(n, k, o, f) for n, k, o, f, _ in sorted(uses, key=lambda u: u[4])]
+
+
 def generate():
     rel = f"{CORE}/path.py"
     tree = parse_module(rel)
@@ -575,6 +655,7 @@ def generate():
     sites = scan_call_sites()
     tsites = target_call_site_facts()
     bfields = rpc_back_facts()
+    huses = amend_history_facts()
     lines = [
         "(* GENERATED by translator/gen_path.py from /repo -- do not edit *)",
         "From Coq Require Import List NArith Bool.",
@@ -605,6 +686,13 @@ def generate():
         "].",
         "Definition targets_normalized_in_user_cwd : bool := forallb (fun s => snd s) target_call_sites.",
         "(* stepup/core/api.py: path fields of RPC results and the function that maps them back for the step *)",
+        "(* stepup/core/api.py: statements of amend() that compare a path set with / add it to _AMEND_HISTORY, and the",
+        "   frame the set is in (FTranslated: after translate(), root-relative; FRaw: as the step wrote it) *)",
+        "Inductive hist_op := HRead | HWrite.",
+        "Inductive frame := FTranslated | FRaw | FNotPath.",
+        "Definition amend_history_uses : list (str * (hist_op * frame)) := [",
+        ";\n".join(f"  ({coq_str(n)}, ({o}, {f})) (* {n} *)" for n, k, o, f in huses),
+        "].",
         "Inductive back_map := BackTranslate | BackUnknown.",
         "Definition rpc_back_fields : list (str * back_map) := [",
         ";\n".join(f"  ({coq_str(n)}, {k}) (* {n} *)" for n, k in bfields),
